@@ -381,13 +381,91 @@ def one(ctx, i):
         ctx.count('completion')
 
 
+def exp_family(ctx, i):
+    """Multi-key composite events (ExponentialRateChanges / ExponentialPopSizeChanges / DiscretizedRateChanges) against the same
+    demography written as ONE single-key DiscretizedRateChange per key with the closed-form trajectory (whose schedule the other
+    clause ties to the model), and against the closed form itself: inside its window every key takes the mean of ITS OWN
+    trajectory at the two ends of the epoch."""
+    import numpy as np
+    pg = C.import_phasegen()
+    rng = random.Random(f'{ctx.seed}-c05-exp-{i}')
+    names = list(rng.choice(gen.NAME_SETS)[:rng.choice([1, 2, 2, 3])])
+    keys = list(names) + ([(a, b) for a in names for b in names if a != b] if len(names) > 1 and rng.random() < 0.6 else [])
+    rng.shuffle(keys)
+    keys = keys[:rng.randint(2, min(4, len(keys)))] if len(keys) >= 2 else keys
+    step = rng.choice([0.125, 0.25, 0.5])
+    per_key = rng.random() < 0.6
+    x0 = {k: float(2.0 ** rng.randint(-2, 2)) * rng.choice([1.0, 1.5, 3.0]) for k in keys}
+    g = {k: rng.choice([-0.5, -0.125, 0.25, 0.5, 1.0]) for k in keys}
+    t0 = {k: rng.choice([0.0, 0.25, 0.5]) for k in keys}
+    t1 = {k: t0[k] + rng.choice([0.5, 1.0, 1.5]) for k in keys}
+    if not per_key:
+        gg, tt0, tt1 = rng.choice(list(g.values())), rng.choice(list(t0.values())), max(t1.values())
+        g, t0, t1 = {k: gg for k in keys}, {k: tt0 for k in keys}, {k: tt1 for k in keys}
+    only_sizes = all(isinstance(k, str) for k in keys)
+    cls = rng.choice(['ExponentialPopSizeChanges', 'ExponentialRateChanges']) if only_sizes else 'ExponentialRateChanges'
+    kw = dict(growth_rate=dict(g) if per_key else next(iter(g.values())), start_time=dict(t0) if per_key else next(iter(t0.values())),
+              end_time=dict(t1) if per_key else next(iter(t1.values())), step_size=step)
+    base = [pg.PopSizeChanges({p: {0: 1.0} for p in names})]
+    if len(names) > 1:
+        base.append(pg.MigrationRateChanges({(a, b): {0: 0.5} for a in names for b in names if a != b}))
+    traj = {k: (lambda t, a=x0[k], b=g[k], c=t0[k]: a * np.exp(-b * (t - c))) for k in keys}
+    with C.LogCapture():
+        if cls == 'ExponentialPopSizeChanges':
+            joint = pg.ExponentialPopSizeChanges(initial_size=dict(x0), **kw)
+        else:
+            joint = pg.ExponentialRateChanges(initial_rate=dict(x0), **kw)
+        d_joint = pg.Demography(events=base + [joint])
+        singles = [pg.DiscretizedRateChange(trajectory=traj[k], start_time=t0[k], end_time=t1[k], step_size=step,
+                                            pop=k if isinstance(k, str) else None, source=k[0] if isinstance(k, tuple) else None,
+                                            dest=k[1] if isinstance(k, tuple) else None) for k in keys]
+        d_single = pg.Demography(events=base + singles)
+        plural = pg.Demography(events=base + [pg.DiscretizedRateChanges(trajectory=dict(traj), start_time=dict(t0), end_time=dict(t1),
+                                                                        step_size=step)])
+
+        def tab(d):
+            out = []
+            for e in d.epochs:
+                out.append((float(e.start_time), float(e.end_time), {p: float(e.pop_sizes[p]) for p in names},
+                            {k: float(v) for k, v in e.migration_rates.items() if k[0] != k[1]}))
+                if e.end_time == np.inf or len(out) > 200:
+                    break
+            return out
+        A, B, P = tab(d_joint), tab(d_single), tab(plural)
+    detail = dict(cls=cls, keys=[str(k) for k in keys], x0={str(k): v for k, v in x0.items()}, growth={str(k): v for k, v in g.items()},
+                  start={str(k): v for k, v in t0.items()}, end={str(k): v for k, v in t1.items()}, step=step, per_key=per_key, item=i)
+    ctx.case(detail, ('exp', cls, len(keys), per_key, i))
+    ctx.count(f'exp:{cls}'); ctx.count(f'exp:keys{len(keys)}'); ctx.count('exp:per-key' if per_key else 'exp:scalar-args')
+
+    def same(X, Y):
+        return len(X) == len(Y) and all(abs(a[0] - b[0]) <= 1e-12 and (a[1] == b[1] or abs(a[1] - b[1]) <= 1e-12) and
+                                        all(abs(a[2][p] - b[2][p]) <= 1e-12 * max(1, abs(b[2][p])) for p in names) and
+                                        all(abs(a[3][k] - b[3][k]) <= 1e-12 * max(1, abs(b[3][k])) for k in b[3]) for a, b in zip(X, Y))
+    if not same(A, B):
+        ctx.violation('composite-event:exponential-vs-single-key-events', **detail, joint=A[:8], one_event_per_key=B[:8]); return
+    if not same(P, B):
+        ctx.violation('composite-event:discretized-plural-vs-single-key-events', **detail, joint=P[:8], one_event_per_key=B[:8]); return
+    # closed form: endpoint mean of the key's own trajectory inside its window
+    for (s, e, sizes, mig) in A:
+        for k in keys:
+            if t0[k] <= s and e <= t1[k] + 1e-12 and e != float('inf'):
+                want = 0.5 * (traj[k](s) + traj[k](e))
+                got = sizes[k] if isinstance(k, str) else mig[k]
+                if abs(got - want) > 1e-9 * max(1.0, abs(want)):
+                    ctx.violation('composite-event:endpoint-mean', **detail, epoch=[s, e], key=str(k), expected=want, observed=got); return
+
+
 def run(ctx):
     import check
     check.pmap(ctx, 'props.c05', 'one', list(range(1500 if ctx.quick else 12000)), case_timeout=120)
+    check.pmap(ctx, 'props.c05', 'exp_family', list(range(200 if ctx.quick else 2000)), case_timeout=120)
 
 
 def replay(ctx, payload):
     pg = C.import_phasegen()
+    if str(payload.get('signature', '')).startswith('composite-event'):
+        ctx.seed = payload['seed']            # the scenario is a deterministic function of (seed, item)
+        return exp_family(ctx, payload['item'])
     case = payload['case']
     for e in case['events']:
         if e['kind'] == 'discrete':
